@@ -948,6 +948,27 @@ Proof.
 Qed.
 
 (* the compression table at the end of rendering is sound w.r.t. the final octets *)
+Theorem counts_exact_pad_lemma pad m ms rp w :
+  WfMsg o m -> wf_tsig m -> to_wire m o ms rp false pad = Ok w ->
+  exists body,
+    w = hdr_bytes (mid m) (mflags m) (zlen (mq m)) (rr_count (man m)) (rr_count (mau m))
+                  (rr_count (mad m) + opt_count (mopt m) + opt_count (mtsig m)) ++ body /\
+    exists m', from_wire w o po0 = Ok m'.
+Proof.
+  intros WF WT H. pose proof WF as [W0 WQ WA WU WD KA KU KD WO].
+  destruct (render_parse_pad_lemma o OO pad m ms rp w WF WT H) as (m' & F & _).
+  destruct (layout_final_p o OO (fun _ => wf_rrset o) (fun _ => SecDesc o) (fun _ => Rebuilt)
+                         (fun sec l r r' file => add_rrsets_chain_x o OO sec l r r' file) pad m ms rp w WQ WA WU WD WO WT H)
+    as (qs & ds1 & ds2 & ds3 & owner' & wb & body & e0 & e1 & e2 & e3 & e4 & t' & Ew & _ & _ & _ & _ & _ & _ &
+        _ & _ & _ & _ & QD & SD1 & SD2 & SD3 & _ & _ & TE & _).
+  assert (Z0 : zlen qs = zlen (mq m)) by (unfold zlen; f_equal; symmetry; eapply Forall2_len; exact QD).
+  pose proof (SecDesc_count o _ _ SD1 WA) as Z1. pose proof (SecDesc_count o _ _ SD2 WU) as Z2.
+  pose proof (SecDesc_count o _ _ SD3 WD) as Z3.
+  assert (ZT : opt_count t' = opt_count (mtsig m)).
+  { destruct t' as [[kn' rd']|]; destruct (mtsig m) as [[kn rd]|]; try contradiction; reflexivity. }
+  exists body. split; [|exists m'; exact F]. rewrite Ew, Z0, Z1, Z2, Z3, ZT. reflexivity.
+Qed.
+
 Theorem render_table_sound_pad_lemma pad m ms rp r :
   WfMsg o m -> wf_tsig m -> to_wire_st m o ms rp false pad = Ok r -> TableSound (out r) (tbl r).
 Proof.
